@@ -187,15 +187,21 @@ def run(prop, tier="quick", seed=0, replay_path=None):
     # undecided obligations: (1) abstract counterexample search (regex atoms dropped, module hints added);
     # a candidate only counts if the replay on the real code violates the clause. (2) retry with 3x budget.
     searched = {}
+    alt_ok = {ob.meta["alt_of"] for ob in obs if ob.meta.get("alt_of") and results[ob.id].status == "unsat"}
     for ob in obs:
-        if ob.expect == "unsat" and results[ob.id].status == "unknown" and hasattr(mod, "replay") and ob.model_vars:
+        if ob.id in alt_ok or ob.meta.get("alt_of"):
+            continue
+        if ob.expect == "unsat" and results[ob.id].status == "unknown" and hasattr(mod, "replay") and ob.model_vars \
+                and getattr(mod, "ABSTRACT_SEARCH", True):
             cand = abstract_search(ob, mod)
             if cand is not None:
                 searched[ob.id] = cand
                 log("  abstract search found a replayed counterexample for", ob.id)
-    todo = [ob for ob in obs if results[ob.id].status == "unknown" and ob.id not in searched]
+    alt_ok = {ob.meta["alt_of"] for ob in obs if ob.meta.get("alt_of") and results[ob.id].status == "unsat"}
+    todo = [ob for ob in obs if results[ob.id].status == "unknown" and ob.id not in searched and ob.id not in alt_ok
+            and not (ob.meta.get("alt_of") in alt_ok)]
     if todo:
-        results.update(solve.solve_all(todo, timeout_s=budget * 3, want_both=both, progress=progress, retry=False))
+        results.update(solve.solve_all(todo, timeout_s=budget * 3, want_both=both, progress=progress, retry=False, retry_pass=True))
     for oid, (model, rep) in searched.items():
         r = results[oid]
         r.status, r.solver, r.model = "sat", "z3-api(abstract search)+replay", model
@@ -203,8 +209,20 @@ def run(prop, tier="quick", seed=0, replay_path=None):
     solve_s = time.time() - ts
 
     discharged, failed, undecided, controls_ok, control_bad = [], [], [], [], []
+    # sound abstractions of a VC (meta alt_of=<primary id>): unsat on the abstraction discharges the primary;
+    # any other answer on the abstraction is ignored (it may be spurious)
+    alt_unsat = {ob.meta["alt_of"]: ob for ob in obs if ob.meta.get("alt_of") and results[ob.id].status == "unsat"}
     for ob in obs:
+        if ob.meta.get("alt_of"):
+            continue
         r = results[ob.id]
+        if ob.id in alt_unsat and r.status != "unsat":
+            a = results[alt_unsat[ob.id].id]
+            if r.status == "sat":
+                status["errors"].append("abstraction of %s is unsat but the concrete VC is sat" % ob.id)
+                continue
+            r.status, r.solver, r.ms = "unsat", (a.solver or "") + "(uninterpreted-multiplication abstraction)", r.ms + a.ms
+
         if r.status == "conflict":
             status["errors"].append("solver disagreement on %s: %s" % (ob.id, r.answers))
             continue
@@ -317,7 +335,7 @@ def run(prop, tier="quick", seed=0, replay_path=None):
     for ob in undecided:
         status["undecided"].append({"id": ob.id, "answers": results[ob.id].answers})
 
-    n_vc = len([o for o in obs if o.expect == "unsat"])
+    n_vc = len([o for o in obs if o.expect == "unsat" and not o.meta.get("alt_of")])
     by_backend = {}
     for ob in discharged:
         s = results[ob.id].solver
